@@ -3,6 +3,8 @@
 -/
 import OptreeModel.Model.Sexp
 import OptreeModel.Model.Ops
+import OptreeModel.Model.OrderSM
+import OptreeModel.Model.RegSM
 import OptreeModel.Generated.Hash
 
 namespace Optree
@@ -213,6 +215,11 @@ def fnMenu : Nat → Option UserFn
   | 6 => some fun i _ => .ok (.dict [(.str "b", fresh i), (.str "a", .list [fresh (1000 + i), .none])])
   | _ => Option.none
 
+/-- class universe of the `regsm` stream (mirrored in harness/regsm_impl.py) -/
+def regsmInfo : Nat → ClsInfo
+  | 0 => .plain true | 1 => .plain true | 2 => .namedtuple | 3 => .structseq
+  | 4 => .builtin | 5 => .builtin | 6 => .builtin | 7 => .nonClass | _ => .plain false
+
 def encArg : Arg → Sexp
   | .obj x => encObj x
   | .path p => l (.atom "p" :: p.map encKey)
@@ -358,6 +365,53 @@ def evalOp (st : DriverState) : Sexp → Res Sexp
       let t ← Res.ofDec (decObj tree)
       let r ← Res.ofExcept (treeReplaceNones cfg (.leaf 0 777777) t)
       pure (encOk [encObj r])
+  | .list (.atom "regsm" :: warnErr :: ops) => do
+      let warnErr ← Res.ofDec (decBool warnErr)
+      let decNs : Sexp → Dec RNs := fun x => match x with
+        | .atom "G" => .ok .glob
+        | .atom "E" => .ok .empty
+        | .str s => .ok (.named s)
+        | _ => .error "namespace expected"
+      let decOp : Sexp → Dec ROp := fun e => match e with
+        | .list [.atom "reg", c, ns, bad] => do
+            let c ← decNat c; let ns ← decNs ns; let bad ← decBool bad; pure (.reg c ns bad)
+        | .list [.atom "regc", c, ns] => do let c ← decNat c; let ns ← decNs ns; pure (.regClass c ns)
+        | .list [.atom "unreg", c, ns] => do let c ← decNat c; let ns ← decNs ns; pure (.unreg c ns)
+        | _ => .error "registry op expected"
+      let ops ← Res.ofDec (decList decOp ops)
+      let encObs : RObs → Sexp := fun o => match o with
+        | .custom r => l [.atom "c", nat r]
+        | .namedtuple => .atom "nt" | .structseq => .atom "ss" | .builtin => .atom "b" | .leaf => .atom "leaf"
+      let obs := fun (s : RState) =>
+        l ([0, 1, 2, 3, 8].flatMap fun c => ["", "a", "b"].map fun ns =>
+          l [encObs (engineObs regsmInfo s.node ns c), encObs (engineObs regsmInfo s.leaf ns c),
+             encObs (pyGet regsmInfo s ns c),
+             (match pyGetAll s ns c with | some r => l [.atom "c", nat r] | Option.none => .atom "-")])
+      let errName : RErr → String := fun e => match e with
+        | .type_ => "TypeError" | .value => "ValueError" | .attr => "AttributeError"
+        | .warning => "UserWarning"
+      let rec goR : List ROp → RState → Nat → List Sexp → List Sexp
+        | [], _, _, acc => acc.reverse
+        | op :: ops, s, i, acc =>
+            let (s', e) := rstep regsmInfo warnErr s i op
+            let r := match e with
+              | Option.none => Sexp.atom "ok"
+              | some e => Sexp.atom (errName e)
+            goR ops s' (i + 1) (l [r, obs s'] :: acc)
+      pure (encOk (goR ops RState.init 0 []))
+  | .list (.atom "ordersm" :: events) => do
+      let decEvent : Sexp → Dec OEvent := fun e => match e with
+        | .list [.atom "enter", m, .str ns] => do let m ← decBool m; pure (.enter m ns)
+        | .list [.atom "exit"] => .ok .exit
+        | .list [.atom "raise"] => .ok .raise
+        | _ => .error "event expected"
+      let evs ← Res.ofDec (decList decEvent events)
+      let obs := fun (st : OState × OStack) =>
+        l (["", "a", "b"].map fun n => l [Sexp.bool (st.1.ordered n false), Sexp.bool (st.1.ordered n true)])
+      let rec go : List OEvent → OState × OStack → List Sexp → List Sexp
+        | [], _, acc => acc.reverse
+        | e :: es, st, acc => let st' := ostep st e; go es st' (obs st' :: acc)
+      pure (encOk (go evs (OState.init, []) []))
   | .list [.atom "repr", s] => do
       let sp ← evalSpec st s
       let r ← Res.ofExcept (toString stdNames sp)
